@@ -16,8 +16,8 @@ ENV = dict(os.environ, GOFLAGS="-mod=mod", GOPROXY="off", GOSUMDB="off", GOTOOLC
 VERIF = os.path.dirname(os.path.dirname(os.path.abspath(__file__)))
 ALL = ["C%02d" % i for i in range(1, 21)]
 ORDER = {
-    "ddsketch/store/collapsing": ["C05", "C15", "C14", "C16", "C06", "C12"],
-    "ddsketch/store/": ["C04", "C09", "C06", "C05", "C14", "C16", "C15", "C02", "C12", "C07", "C08", "C01", "C11", "C13"],
+    "ddsketch/store/collapsing": ["C05", "C15", "C14", "C16", "C06"],
+    "ddsketch/store/": ["C04", "C15", "C14", "C06", "C09", "C16", "C05", "C07", "C13"],
     "ddsketch/ddsketch.go": ["C01", "C09", "C13", "C02", "C11", "C10", "C12", "C17", "C06", "C07", "C08", "C14", "C16", "C15", "C05"],
     "ddsketch/mapping/": ["C19", "C01", "C17", "C09", "C13", "C03", "C06"],
     "ddsketch/encoding/": ["C18", "C07", "C06", "C08"],
@@ -100,7 +100,8 @@ def lane(k, q, args, lock, resf):
                     todo = list(m.get("checks") or order_for(m["file"], m.get("func", "")))
                     # first pass one level shallower (cheap), second pass at the registered depth
                     for delta in (-1, 0):
-                        for cid in todo:
+                        # the pass at the registered depth only runs the four most relevant checks
+                        for cid in (todo if delta else todo[:4]):
                             c, clause = run_check(wt, outdir, cid, args.workers, delta)
                             res["ran"].append(cid + ("-shallow" if delta else ""))
                             if c == 1:
